@@ -151,6 +151,22 @@ def run(case, kind, seed=0, n_ops=10, ops=None):
                     raise
                 ref, _ = _decode_obs(b, fresh(fixed), x, create=op[2])
                 trace.append(['decode', x, op[2], obs[0], obs[1]])
+                # the corrected vector stays inside the declared ranges of the free variables (absolute check: a fresh
+                # processor with the same fixed values would share a mistake made here), inactive discrete entries are 0
+                for (e_, v_, a_) in zip(free_vars, obs[0], obs[1]):
+                    if e_[0] == 'sel':
+                        ok_ = float(v_).is_integer() and 0 <= v_ < max(1, len(e_[2]))
+                    elif e_[0] == 'conn':
+                        ok_ = True
+                    elif e_[2][0] == 'disc':
+                        ok_ = float(v_).is_integer() and 0 <= v_ < max(1, e_[2][1])
+                    else:
+                        ok_ = e_[2][1] - 1e-9 <= v_ <= e_[2][2] + 1e-9
+                    if ok_ and not a_ and (e_[0] == 'sel' or (e_[0] == 'dv' and e_[2][0] == 'disc')) and v_ != 0:
+                        ok_ = False
+                    if not ok_:
+                        fail('corrected-vector-out-of-range', 'after %s: x=%s fixed=%s -> %s act %s: entry %s of variable %s' % (trace[:-1], x, fixed, obs[0], obs[1], v_, e_[:3]))
+                        break
                 if obs != ref:
                     fail('decode-differs-from-fresh-processor', 'after %s: x=%s create=%s got %s, fresh processor %s' % (trace[:-1], x, op[2], obs, ref))
                 if obs[4]:
